@@ -25,8 +25,7 @@ theorem Loc_child_idx (xs : List JV) (j : Nat) (y : JV) (q : List JV) (x : JV) (
     (hy : xs[j]? = some y) (h : Loc q y x) : Loc (idxJV j :: q) (.arr xs) x := by
   have hlt : j < xs.length := by
     rcases List.getElem?_eq_some_iff.mp hy with ⟨h, _⟩; exact h
-  rw [idxJV, Loc_idx]
-  refine ⟨by omega, by simp only [maxInt]; omega, y, by simpa using hy, h⟩
+  exact Loc_idx j q xs x (by omega) (by simp only [maxInt]; omega) y (by simpa using hy) h
 
 mutual
 theorem recPathsFrom_loc : ∀ (v : JV) (rp p : List JV), p ∈ recPathsFrom rp v → nodup v → Indexable v →
